@@ -9,6 +9,7 @@ from typing import TYPE_CHECKING
 
 import mypy.nodes as mp_nodes
 import mypy.types as mp_types
+from mypy.util import correct_relative_import
 
 import safeds_stubgen.api_analyzer._types as sds_types
 from safeds_stubgen import is_internal
@@ -93,7 +94,8 @@ class MyPyAstVisitor:
                     )
 
             elif isinstance(import_, mp_nodes.ImportFrom):
-                import_id = f"{import_.id}." if import_.id else ""
+                import_id = self._resolve_import_id(node, import_, is_package)
+                import_id = f"{import_id}." if import_id else ""
                 for import_name, import_alias in import_.names:
                     qualified_imports.append(
                         QualifiedImport(
@@ -104,7 +106,7 @@ class MyPyAstVisitor:
 
             elif isinstance(import_, mp_nodes.ImportAll):
                 wildcard_imports.append(
-                    WildcardImport(import_.id),
+                    WildcardImport(self._resolve_import_id(node, import_, is_package)),
                 )
 
         # Search for a Docstring. Only a string that is the first statement of the module is its docstring.
@@ -134,6 +136,17 @@ class MyPyAstVisitor:
             self._add_reexports(module)
 
         self.__declaration_stack.append(module)
+
+    @staticmethod
+    def _resolve_import_id(
+        node: mp_nodes.MypyFile,
+        import_: mp_nodes.ImportFrom | mp_nodes.ImportAll,
+        is_package: bool,
+    ) -> str:
+        # "from ..a.b import c" starts above the package of the module, such an import is the absolute import it denotes
+        if import_.relative > 1:
+            return correct_relative_import(node.fullname, import_.relative, import_.id, is_package)[0]
+        return import_.id
 
     def leave_moduledef(self, _: mp_nodes.MypyFile) -> None:
         module = self.__declaration_stack.pop()
